@@ -123,9 +123,23 @@ def register(op):
         m = {int(k): v for k, v in a["mapping"]}
         code = _nop_code(opc, a["code_len"])
         try:
-            co = _portable(a["version"], a["first"], code, m if a.get("as_dict", True) else sorted(m.items()))
+            tabv = m if a.get("as_dict", True) else sorted(m.items())
+            mode = a.get("refreeze")
+            if mode:
+                # the object has been frozen once already with another table; the mapping is supplied afterwards
+                co = _portable(a["version"], a["first"], code, {0: a["first"]})
+                co.freeze()
+                attr = "co_linetable" if hasattr(co, "co_linetable") and not hasattr(co, "co_lnotab") else "co_lnotab"
+                if mode == "replace":
+                    co = co.replace(**{attr: tabv})
+                else:
+                    setattr(co, attr, tabv)
+            else:
+                co = _portable(a["version"], a["first"], code, tabv)
             co.freeze()
             tab = co.co_linetable if hasattr(co, "co_linetable") else co.co_lnotab
+            if isinstance(tab, (dict, list)):
+                return {"err": "table left as %s after freeze()" % type(tab).__name__, "cls": type(co).__name__}
             if isinstance(tab, str):
                 tabb = bytes(ord(c) for c in tab)
             else:
